@@ -2,7 +2,11 @@ package c02
 
 import (
 	"context"
+	"encoding/binary"
 	"fmt"
+	"os"
+	"path/filepath"
+	"sort"
 	"strings"
 
 	"github.com/quay/claircore"
@@ -23,6 +27,8 @@ type rpmPkg struct {
 	digest           string // sha256 payload digest; "" = absent
 	dirs, bases      []string
 	dirIdx           []int32
+	oldNames         []string // rpm 3 style OLDFILENAMES (absolute paths); nil = absent
+	desc             string   // DESCRIPTION; real headers are a few KiB because of it and of the changelog
 }
 
 func (p rpmPkg) blob() []byte {
@@ -46,6 +52,12 @@ func (p rpmPkg) blob() []byte {
 	}
 	if p.digest != "" {
 		ents = append(ents, rpmStrings(tagPayloadDigest, typeStringArray, []string{p.digest}), rpmInt32s(tagPayloadDigestAlgo, []int32{8}))
+	}
+	if p.desc != "" {
+		ents = append(ents, rpmStrings(tagDescription, typeI18nString, []string{p.desc}))
+	}
+	if len(p.oldNames) > 0 {
+		ents = append(ents, rpmStrings(tagOldFilenames, typeStringArray, p.oldNames))
 	}
 	if len(p.bases) > 0 {
 		ents = append(ents, rpmStrings(tagBasenames, typeStringArray, p.bases), rpmStrings(tagDirnames, typeStringArray, p.dirs), rpmInt32s(tagDirindexes, p.dirIdx))
@@ -229,9 +241,46 @@ func runRpm(r *hx.Run, rnd *hx.Rand, cfg hx.Config) error {
 			infos[j] = g.p.opInfo()
 		}
 		dir := rnd.Pick("var/lib/rpm", "var/lib/rpm", "usr/lib/sysimage/rpm", "opt/chroot/var/lib/rpm")
-		kind := rnd.Pick("sqlite", "ndb", "ndb")
+		kind := rnd.Pick("sqlite", "ndb", "ndb", "bdb", "bdb")
 		var ents []ent
+		var inlineNames []string // bdb: headers small enough to sit in the bucket page itself
+		var dbFull []rpmGT       // bdb: every header in page order, the inline ones included
 		switch kind {
+		case "bdb":
+			lay := bdbFreshLayout(rnd, len(blobs))
+			if rnd.Chance(3, 4) {
+				lay = bdbRandomLayout(rnd, len(blobs))
+			}
+			// real headers are bigger than a quarter page (some fifty index entries alone are
+			// 800 bytes); make most of the generated ones so, and keep a few small
+			for j := range db {
+				if !rnd.Chance(1, 12) {
+					db[j].p.desc = strings.Repeat("Lorem ipsum dolor sit amet. ", 1+lay.pageSize/4/28)
+					if rnd.Chance(1, 3) {
+						db[j].p.desc += strings.Repeat("x", rnd.Intn(3*lay.pageSize))
+					}
+					blobs[j] = db[j].p.blob()
+				}
+			}
+			file, order, inl := rpmBdb(blobs, lay)
+			var db2 []rpmGT
+			var infos2 []string
+			for k, i := range order {
+				dbFull = append(dbFull, db[i])
+				if inl[k] {
+					inlineNames = append(inlineNames, db[i].p.name)
+					r.Count("rpm:bdb:inline-header")
+					continue
+				}
+				db2, infos2 = append(db2, db[i]), append(infos2, infos[i])
+			}
+			db, infos = db2, infos2
+			ents = append(ents, ent{path: dir + "/Packages", data: file})
+			r.Count(fmt.Sprintf("rpm:bdb:pagesize:%d", lay.pageSize))
+			r.Count(fmt.Sprintf("rpm:bdb:big-endian:%v", lay.bigEndian))
+			r.Count(fmt.Sprintf("rpm:bdb:sorted:%v", lay.sorted))
+			r.Count(fmt.Sprintf("rpm:bdb:scatter:%v", lay.scatter))
+			r.Count(fmt.Sprintf("rpm:bdb:bucket-pages:%s", sizeBucket(len(lay.perBucket))))
 		case "sqlite":
 			b, err := rpmSqlite(tmp, blobs)
 			if err != nil {
@@ -291,6 +340,31 @@ func runRpm(r *hx.Run, rnd *hx.Rand, cfg hx.Config) error {
 		wit := fmt.Sprintf("%s with headers [%s]", dbName, strings.Join(infos, " "))
 		if len(wit) > 1500 {
 			wit = wit[:1500] + "…"
+		}
+		if len(inlineNames) > 0 && !got.err && !got.panic && len(got.bad) == 0 {
+			// the whole statement: the small headers are packages, too
+			var full []rpmTuple
+			for _, g := range dbFull {
+				if g.p.name != "gpg-pubkey" {
+					full = append(full, g.expected(dbName))
+				}
+			}
+			eq := func(a, b []rpmTuple) bool {
+				if len(a) != len(b) {
+					return false
+				}
+				for i := range a {
+					if a[i] != b[i] {
+						return false
+					}
+				}
+				return true
+			}
+			if !eq(got.tuples, full) && eq(got.tuples, want) {
+				r.Fail("rpm-bdb-inline-header-skipped", fmt.Sprintf("rpm bdb: headers smaller than a quarter page sit in the bucket page itself and are not reported: %v missing from %s", inlineNames, wit))
+				continue
+			}
+			want = full
 		}
 		switch {
 		case got.err || got.panic:
@@ -368,9 +442,82 @@ func runRpm(r *hx.Run, rnd *hx.Rand, cfg hx.Config) error {
 			r.Count("rpm:ndb:fixed-layouts")
 		}
 	}
+	runBdbCorpus(r, cfg.Corpus)
 	// no database: nothing
 	if o := scanRpm([]ent{{path: "var/lib/rpm/other", data: []byte("x")}}); o.err || len(o.tuples) != 0 {
 		r.Fail("", "rpm: a layer without a database reports packages or fails")
 	}
 	return nil
+}
+
+// runBdbCorpus scans the Packages files under corpus/C02/bdb, which were written by libdb 5.3
+// itself (through perl's DB_File, see mkbdb.pl there): hash databases with 512 ... 16384-byte
+// pages, either byte order, with and without a history of deletions. <name>.expect lists the
+// headers ("name length").
+func runBdbCorpus(r *hx.Run, dir string) {
+	files, _ := filepath.Glob(filepath.Join(dir, "bdb", "*.Packages"))
+	sort.Strings(files)
+	for _, fn := range files {
+		b, err := os.ReadFile(fn)
+		if err != nil || len(b) < 512 {
+			continue
+		}
+		exp, err := os.ReadFile(strings.TrimSuffix(fn, ".Packages") + ".expect")
+		if err != nil {
+			continue
+		}
+		ps := binary.LittleEndian.Uint32(b[20:])
+		if ps > 1<<16 {
+			ps = binary.BigEndian.Uint32(b[20:])
+		}
+		want, small := map[string]bool{}, map[string]bool{}
+		for _, l := range strings.Split(strings.TrimSpace(string(exp)), "\n") {
+			var n string
+			var sz int
+			if _, err := fmt.Sscanf(l, "%s %d", &n, &sz); err != nil {
+				continue
+			}
+			want[n] = true
+			if uint32(sz) <= ps/4 {
+				small[n] = true
+			}
+		}
+		got := scanRpm([]ent{{path: "var/lib/rpm/Packages", data: b}})
+		r.Case("bdb-corpus "+filepath.Base(fn), true)
+		r.Count("rpm:bdb:libdb-written")
+		names := map[string]bool{}
+		for _, t := range got.tuples {
+			if names[t.name] {
+				r.Fail("", fmt.Sprintf("rpm bdb: %s (written by libdb): %s reported twice", filepath.Base(fn), t.name))
+			}
+			names[t.name] = true
+			if !want[t.name] || t.version != "1."+strings.TrimPrefix(t.name, "p")+"-1" || t.arch != "noarch" {
+				r.Fail("", fmt.Sprintf("rpm bdb: %s (written by libdb): reported %+v, which the database does not hold", filepath.Base(fn), t))
+			}
+		}
+		var missing, missingSmall []string
+		for n := range want {
+			if !names[n] {
+				if small[n] {
+					missingSmall = append(missingSmall, n)
+				} else {
+					missing = append(missing, n)
+				}
+			}
+		}
+		sort.Strings(missing)
+		sort.Strings(missingSmall)
+		switch {
+		case got.err || got.panic:
+			r.Fail("", fmt.Sprintf("rpm bdb: %s (written by libdb): scan fails", filepath.Base(fn)))
+		case len(missing) > 0:
+			r.Fail("", fmt.Sprintf("rpm bdb: %s (written by libdb, %d-byte pages): headers %v are not reported", filepath.Base(fn), ps, missing))
+		case len(missingSmall) > 0 && len(missingSmall) == len(small):
+			r.KnownSeen("rpm-bdb-inline-header-skipped", fmt.Sprintf("%s (written by libdb 5.3, %d-byte pages): the headers of at most %d bytes %v are not reported", filepath.Base(fn), ps, ps/4, missingSmall))
+		case len(missingSmall) > 0:
+			r.Fail("", fmt.Sprintf("rpm bdb: %s (written by libdb, %d-byte pages): some of the small headers are reported, %v are not", filepath.Base(fn), ps, missingSmall))
+		default:
+			r.Count("rpm:bdb:libdb-written:exact")
+		}
+	}
 }
